@@ -10,7 +10,12 @@ other count behaves like 0) and the setters overwrite `(Tparameters, Tfunction)`
 precipitation class, the flag.  `Tfunction` is always determined by `Tparameters`, so the state
 keeps one `Spec`.  "Calling" the object is `eval`; `none` = the call raises
 (`Tfunction is None`, empty or unequal-length break-point lists).
+
+Last section (`diffusion run under a schedule`): what a diffusion model does with the schedule at every
+evaluation of its fluxes — `T = temperatureParameters(z, t)` and then, node by node, the
+(composition, temperature) cache of `KawinV.HashCache` in front of the thermodynamics.
 -/
+import KawinV.Model.HashCache
 namespace KawinV.TempSched
 
 section interp
@@ -198,5 +203,86 @@ def RWorld.step {α : Type} (w : RWorld α) : WOp α → RWorld α
 def VWorld.obj {α : Type} (w : VWorld α) (o : Nat) : Option (List α × List α) := nth w.objs o
 def RWorld.obj {α : Type} (w : RWorld α) (o : Nat) : Option (List α × List α) :=
   (nth w.objs o).map (fun p => (arrOf w.store p.1, arrOf w.store p.2))
+
+/-! ### a diffusion run under a schedule: the (composition, temperature) cache
+
+`SinglePhaseModel._getFluxes(t, x)` (SinglePhase.py 27-35) and `HomogenizationModel._getFluxes`
+(Homogenization.py 93-96, through `computeHomogenizationFunction` → `_computeSingleMobility`,
+DiffusionParameters.py 508-535) start the same way:
+
+    T = self.temperatureParameters(self.z, t)
+    for i in range(N):  v = hashTable.retrieve(x[:,i], T[i]);  if v is None: v = therm(x[:,i], T[i]); hashTable.add(x[:,i], T[i], v)
+
+Everything after that (mid-point diffusivity, gradients, boundary conditions, time step) is a function of
+the `v`s, so "the model works with the schedule temperature of the current time" is a statement about
+which `(x, T)` each `v` was computed at.  The node compositions of every evaluation are inputs of the
+model (they come out of the solver), the temperatures come from the schedule, the table is
+`HashCache.Table` with the retrieve-else-compute-and-add idiom `HashCache.cachedQuery`. -/
+
+section diffrun
+open KawinV.HashCache
+
+/-- the key with the temperature LEFT UNSCALED (truncated to whole kelvin) and only the composition
+multiplied by `10^s` — not what the code does (`HashCache.keyExact` scales every component); kept as the
+comparison variant of the theorems and of the driver -/
+def keyKelvin {α : Type} [KeyScalar α] (s : Nat) (x : List α) (T : α) : List (Option Int) :=
+  x.map (scaled s) ++ [KeyScalar.trunc T]
+
+/-- … with the W-bit cast of every component -/
+def keyKelvinCast {α : Type} [KeyScalar α] (w s : Nat) (x : List α) (T : α) : List Int :=
+  (keyKelvin s x T).map (castBits w)
+
+/-- what a diffusion model's table sees: control calls (`useCache`, `clearCache`, `setHashSensitivity`)
+and evaluations of the fluxes at time `t` with node compositions `xs` (one list per node) -/
+inductive DEv (α : Type) where
+  | enable (b : Bool)
+  | clear
+  | setSens (s : Nat)
+  | flux (t : α) (xs : List (List α))
+
+/-- one evaluation of the fluxes as seen from outside: its time, the temperature handed over for every
+node and the value used for every node -/
+structure FluxObs (α ν : Type) where
+  time : α
+  temps : List α
+  vals : List ν
+
+variable {α κ ν : Type} [DecidableEq κ]
+variable (cfg : Cfg) (key : Nat → List α → α → κ) (f : List α → α → ν)
+
+/-- the loop over the nodes: `cachedQuery` for every `(x_i, T_i)`, the table threaded through -/
+def queryNodes (tab : Table κ ν) : List (List α × α) → List ν × Table κ ν
+  | [] => ([], tab)
+  | (x, T) :: r =>
+    let (v, tab') := cachedQuery cfg key f tab x T
+    let (vs, tab'') := queryNodes tab' r
+    (v :: vs, tab'')
+
+/-- one `_getFluxes(t, xs)`.  `temp t` is `temperatureParameters(z, t)` (`none`: the call raises, the
+table is untouched).  `T[i]` is read for every node: a temperature array shorter than the number of
+nodes raises after the nodes it covers went through the table; a longer one is cut. -/
+def fluxEval (temp : α → Option (List α)) (tab : Table κ ν) (t : α) (xs : List (List α)) :
+    Option (FluxObs α ν) × Table κ ν :=
+  match temp t with
+  | none => (none, tab)
+  | some Ts =>
+    let (vs, tab') := queryNodes cfg key f tab (xs.zip Ts)
+    (if Ts.length < xs.length then none else some ⟨t, Ts.take xs.length, vs⟩, tab')
+
+/-- a whole history; one output per `flux` event -/
+def runDiff (temp : α → Option (List α)) : Table κ ν → List (DEv α) → Table κ ν × List (Option (FluxObs α ν))
+  | tab, [] => (tab, [])
+  | tab, .flux t xs :: r =>
+    let (o, tab') := fluxEval cfg key f temp tab t xs
+    let (tab'', os) := runDiff temp tab' r
+    (tab'', o :: os)
+  | tab, .enable b :: r => runDiff temp (step cfg key tab (.enable b)) r
+  | tab, .clear :: r => runDiff temp (step cfg key tab .clear) r
+  | tab, .setSens s :: r => runDiff temp (step cfg key tab (.setSens s)) r
+
+/-- the value that remembers where it was computed: every thermodynamics function factors through it -/
+def prov : List α → α → List α × α := fun x T => (x, T)
+
+end diffrun
 
 end KawinV.TempSched
